@@ -1385,6 +1385,13 @@ class Sim(object):
             except Exception:
                 pass
         self.nodes = {}
+        # finalizers of this case's objects (journals, serializers, transports) must run now, not at an arbitrary
+        # moment inside a later case of the same process
+        self.after_step_hooks = []
+        self.on_send_hooks = []
+        self.on_deliver_hooks = []
+        import gc
+        gc.collect()
 
     def summary(self):
         return {
